@@ -18,7 +18,7 @@ META = {
     "bounds": {"quick": "n<=2 train, f<=2 fantasy, m<=2 test; patterns: plain, fantasy-batch with shared inputs (2 x f), model batch 2; "
                         "Gaussian and fixed-noise (call-time noise) likelihoods; fast_pred_var x detach_test_caches; depth 2",
                "thorough": "n<=3, f<=2, m<=2, all four settings combinations for every pattern"},
-    "outside": ["IndependentModelList fantasies beyond two members with (n,f,m) = (2,1,1),(1,2,1)", "per-fantasy-batch inputs (f x b with own inputs)", "multitask fantasies", "WISKI / interpolated fantasy strategy (C09)",
+    "outside": ["IndependentModelList fantasies beyond two members with (n,f,m) = (2,1,1),(1,2,1)", "per-fantasy-batch inputs (f x b with own inputs)", "multitask fantasies beyond (n,f,m,t) = (2,1,1,2) with a stub multitask kernel", "WISKI / interpolated fantasy strategy (C09)",
                 "CG / Lanczos paths", "rounding"],
     "assumptions": ["reals for floats", "Cholesky succeeds without jitter",
                     "linear_operator.utils.pinverse.stable_pinverse (Householder QR) is replaced by its contract A^-1 for the square "
@@ -49,7 +49,8 @@ def fantasy(S, n, f, m, lik, cfg, pattern, depth):
     if lik == "gaussian":
         likelihood = gpytorch.likelihoods.GaussianLikelihood(batch_shape=torch.Size(bs))
     else:
-        likelihood = gpytorch.likelihoods.FixedNoiseGaussianLikelihood(S.rand(*bs, n, lo=0.05, hi=0.5), batch_shape=torch.Size(bs))
+        likelihood = gpytorch.likelihoods.FixedNoiseGaussianLikelihood(S.rand(*bs, n, lo=0.05, hi=0.5), batch_shape=torch.Size(bs),
+                                                                       learn_additional_noise=(lik == "fixed_learn"))
     Gs, Gc = S.factor("g", N, bs)
     table = torch.zeros(*bs, N, N)
     model = StubGP(x, y, likelihood, TableKernel(table), make_mean("constant", bs))
@@ -62,7 +63,7 @@ def fantasy(S, n, f, m, lik, cfg, pattern, depth):
     declare_params(S, model.mean_module, "mean_")
     declare_params(S, likelihood, "lik_")
     kwf, kwf2 = {}, {}
-    if lik == "fixed":
+    if lik in ("fixed", "fixed_learn"):
         S.sym_tensor(likelihood.noise_covar.noise, "fixednoise", lo=1e-6)
         nf = S.rand(*bs, f, lo=0.05, hi=0.5)
         NF = S.sym_tensor(nf, "fantnoise", positive=True)
@@ -80,9 +81,12 @@ def fantasy(S, n, f, m, lik, cfg, pattern, depth):
             for b in np.ndindex(*bs):
                 Sd[b + (slice(n, Ntr),)] = sig[b + (0,)]
         else:
-            Sd[..., n:n + f] = NF
+            extra = Sym.const(0.0)
+            if lik == "fixed_learn":
+                extra = as_sym_arr(SH.get(likelihood.second_noise))  # learned noise: added ONCE to every point, old and new
+            Sd[..., n:n + f] = NF + (extra if lik == "fixed_learn" else Sym.const(0.0))
             if f2:
-                Sd[..., n + f:] = NF2
+                Sd[..., n + f:] = NF2 + (extra if lik == "fixed_learn" else Sym.const(0.0))
         J = Gs @ np.swapaxes(Gs, -1, -2)
         K = J.copy()
         for b in np.ndindex(*bs):
@@ -240,6 +244,61 @@ def model_list_fantasy(S, lik, cfg):
                 S.check_concrete(tuple(d["model"].train_targets.shape) == (d["n"],), "member %d: source targets untouched" % k)
 
 
+def multitask_fantasy(S, n, f, m, t, cfg, fbatch):
+    """multitask exact GP (arbitrary joint covariance over (point, task) pairs, task + global noise): the fantasy model's
+       prediction = conditional on train + fantasy entries; source untouched"""
+    from .C16 import MTTableKernel, MTStubGP
+    Ntr = (n + f) * t
+    N = (n + f + m) * t
+    x, xf, xs = labels(0, n), labels(n, n + f), labels(n + f, n + f + m)
+    y = S.randn(n, t); Y = S.sym_tensor(y, "y")
+    yf = S.randn(*((fbatch,) if fbatch else ()), f, t); YF = S.sym_tensor(yf, "yf")
+    lik = gpytorch.likelihoods.MultitaskGaussianLikelihood(num_tasks=t, rank=0)
+    Gs, Gc = S.factor("g", N)
+    table = torch.zeros(N, N)
+    model = MTStubGP(x, y, lik, MTTableKernel(table, torch.arange(N), t), t)
+    for p in model.parameters():
+        p.requires_grad_(False)
+    declare_params(S, model.mean_module, "mean_")
+    declare_params(S, lik, "lik_", scale=0.3)
+    model.eval(); lik.eval()
+    with S.mode():
+        tn = as_sym_arr(SH.get(lik.task_noises)).reshape(-1)
+        gn = as_sym_arr(SH.get(lik.noise)).reshape(-1)[0]
+        J = Gs @ Gs.T
+        K = J.copy()
+        with torch.no_grad():
+            table.copy_(Gc @ Gc.T)
+        for e in range(Ntr):
+            sv = tn[e % t] + gn
+            K[e, e] = K[e, e] - sv
+            with torch.no_grad():
+                table[e, e] -= sv.c
+        SH.put(table, K, check=True)
+        mflat = as_sym_arr(SH.get(model.mean_module(labels(0, n + f + m)))).reshape(-1)
+        with settings_ctx(cfg), pinverse_by_contract():
+            before = model(xs)
+            b_mean, b_cov = as_sym_arr(SH.get(before.mean)).copy(), as_sym_arr(SH.get(before.covariance_matrix)).copy()
+            fm = S.must_not_raise("multitask get_fantasy_model", lambda: model.get_fantasy_model(xf, yf))
+            out = fm(xs)
+            mean_t, cov_t = out.mean, out.covariance_matrix
+            after = model(xs)
+            S.prove_eq(after.mean, b_mean, "multitask source prediction mean unchanged")
+            S.prove_eq(after.covariance_matrix, b_cov, "multitask source prediction covariance unchanged")
+    Gtr = Gs[:Ntr, :Ntr]
+    Ksx = K[Ntr:, :Ntr]
+    Bm = spd_solve(Gtr, Ksx.T)
+    Cref = K[Ntr:, Ntr:] - Ksx @ Bm
+    for l in (range(fbatch) if fbatch else [None]):
+        yfull = np.concatenate([Y.reshape(-1), (YF[l] if fbatch else YF).reshape(-1)])
+        alpha = spd_solve(Gtr, (yfull - mflat[:Ntr]).reshape(Ntr, 1))
+        Mref = ((Ksx @ alpha).reshape(-1) + mflat[Ntr:]).reshape(m, t)
+        tag = "multitask fantasy%s " % ("[%d]" % l if fbatch else "")
+        S.prove_eq(mean_t[l] if fbatch else mean_t, Mref, tag + "mean = conditional on train + fantasy entries")
+        cv = cov_t[l] if (fbatch and cov_t.dim() == 3) else cov_t
+        S.prove_eq(cv, Cref, tag + "covariance = conditional on train + fantasy entries")
+
+
 def scenarios(tier, seed):
     out = []
     def add(**p):
@@ -254,11 +313,15 @@ def scenarios(tier, seed):
         add(n=1, f=1, m=1, lik="gaussian", cfg=cfgs[0], pattern="model_batch", depth=1)
         add(n=2, f=1, m=1, lik="gaussian", cfg=cfgs[0], pattern="plain", depth=2)
         add(n=1, f=1, m=1, lik="fixed", cfg=cfgs[2], pattern="plain", depth=2)
+        add(n=2, f=1, m=1, lik="fixed_learn", cfg=cfgs[0], pattern="plain", depth=1)
+        add(n=1, f=1, m=1, lik="fixed_learn", cfg=cfgs[3], pattern="plain", depth=2)
         for lik_ in ("gaussian", "fixed"):
             out.append({"sid": "model_list_fantasy:lik=%s,cfg=%s" % (lik_, cfg_id(cfgs[0])), "fn": "model_list_fantasy", "params": {"lik": lik_, "cfg": cfgs[0]}})
+        out.append({"sid": "multitask_fantasy:n=1,f=2,m=1,t=2,fbatch=0", "fn": "multitask_fantasy", "params": {"n": 1, "f": 2, "m": 1, "t": 2, "cfg": cfgs[0], "fbatch": 0}})
+        out.append({"sid": "multitask_fantasy:n=1,f=1,m=1,t=2,fbatch=2,fpv", "fn": "multitask_fantasy", "params": {"n": 1, "f": 1, "m": 1, "t": 2, "cfg": cfgs[2], "fbatch": 2}})
     else:
         for cfg in cfgs:
-            for lik in ("gaussian", "fixed"):
+            for lik in ("gaussian", "fixed", "fixed_learn"):
                 add(n=3, f=2, m=2, lik=lik, cfg=cfg, pattern="plain", depth=1)
                 add(n=2, f=1, m=1, lik=lik, cfg=cfg, pattern="plain", depth=2)
                 add(n=2, f=2, m=1, lik=lik, cfg=cfg, pattern="fbatch_shared", depth=1)
@@ -266,4 +329,8 @@ def scenarios(tier, seed):
             add(n=2, f=1, m=1, lik="gaussian", cfg=cfg, pattern="fbatch_shared", depth=2)
             for lik_ in ("gaussian", "fixed"):
                 out.append({"sid": "model_list_fantasy:lik=%s,cfg=%s" % (lik_, cfg_id(cfg)), "fn": "model_list_fantasy", "params": {"lik": lik_, "cfg": cfg}})
+            for fb in (0, 2):
+                out.append({"sid": "multitask_fantasy:n=1,f=1,m=1,t=2,fbatch=%d,cfg=%s" % (fb, cfg_id(cfg)), "fn": "multitask_fantasy",
+                            "params": {"n": 1, "f": 1, "m": 1, "t": 2, "cfg": cfg, "fbatch": fb}})
+        out.append({"sid": "multitask_fantasy:n=2,f=1,m=1,t=2,fbatch=0", "fn": "multitask_fantasy", "params": {"n": 2, "f": 1, "m": 1, "t": 2, "cfg": cfgs[0], "fbatch": 0}})
     return out
